@@ -46,7 +46,7 @@ func matrixCells() []cell {
 	textBoth("tempo 0", []string{"C[1]{bpm=0}", "C[1] R[1]{bpm=0}"}, []string{"1[1]{bpm=0}", "1[1]{bpm=00}"})
 	textBoth("unknown dynamic", []string{"C[1]{vel=zz}", "C[1]{vel=fff}", "C[1]{vel=F}"}, []string{"1[1]{vel=zz}", "1[1] 2[1]{vel=pianissimo}"})
 	textBoth("mixed notation", []string{"C[1] 2[1]", "C/3[1]", "2[1] C[1]"}, []string{"C[1] 2[1]", "1/E[1]", "2[1] C[1]"})
-	textBoth("malformed key", []string{"C[1]{key=Cmaj7}", "C[1]{key=H}", "C[1]{key=xyzzy Dbb}", "C[1]{key=c}"}, []string{"1[1]{key=Cmaj7}", "1[1]{key=H}", "1[1]{key=Am7}"})
+	textBoth("malformed key", []string{"C[1]{key=Cmaj7}", "C[1]{key=H}", "C[1]{key=xyzzy Dbb}", "C[1]{key=c}", "C[1]{key=Dbb}", "C[1]{key=F##m}"}, []string{"1[1]{key=Cmaj7}", "1[1]{key=H}", "1[1]{key=Am7}", "1[1]{key=Dbb}", "1[1]{key=C#b}"})
 	for _, st := range []string{"text parse", "text conv degree", "text conv syllable"} {
 		for _, t := range []string{"", " \n", ";only a comment\n", "\t"} {
 			cells = append(cells, cell{"empty piece", "text", st, nil, t, "", fmt.Sprintf("%q", t)})
@@ -70,7 +70,7 @@ func matrixCells() []cell {
 		{"unknown dynamic", y("  values: [\"1\"]\n  velocity: zz\n")}, {"unknown dynamic", y("  values: [\"1\"]\n  velocity: \"\"\n")},
 		{"unknown chord symbol", "- chord: {degree: \"1\", name: \"zork\"}\n  values: [\"1\"]\n"}, {"unknown chord symbol", validYAML + "- chord: {degree: \"2\", name: \"M\"}\n  values: [\"1\"]\n"},
 		{"key without scale", y("  values: [\"1\"]\n  key: \"E#\"\n")}, {"key without scale", validYAML + "- values: [\"1\"]\n  key: Abm\n"},
-		{"malformed key", y("  values: [\"1\"]\n  key: Cmaj7\n")}, {"malformed key", y("  values: [\"1\"]\n  key: H\n")}, {"malformed key", y("  values: [\"1\"]\n  key: \"xyzzy Dbb\"\n")},
+		{"malformed key", y("  values: [\"1\"]\n  key: Cmaj7\n")}, {"malformed key", y("  values: [\"1\"]\n  key: H\n")}, {"malformed key", y("  values: [\"1\"]\n  key: \"xyzzy Dbb\"\n")}, {"malformed key", y("  values: [\"1\"]\n  key: Dbb\n")}, {"malformed key", y("  values: [\"1\"]\n  key: \"F##\"\n")},
 	}
 	for _, yc := range yamlCases {
 		for _, st := range writeStages {
@@ -89,7 +89,7 @@ func matrixCells() []cell {
 		for _, k := range []string{"E#", "Abm", "Fb"} {
 			cells = append(cells, cell{"key without scale", "flag", st, []string{"--key", k}, validYAML, "", "--key " + k})
 		}
-		for _, k := range []string{"Cmaj7", "H", "xyzzy Dbb", "c"} {
+		for _, k := range []string{"Cmaj7", "H", "xyzzy Dbb", "c", "Dbb", "F##", "Bbbm"} {
 			cells = append(cells, cell{"malformed key", "flag", st, []string{"--key", k}, validYAML, "", "--key " + k})
 		}
 		for _, a := range [][]string{{"--bpm", "0"}, {"--velocity", ""}, {"--key", ""}, {"--meter", ""}} {
@@ -101,7 +101,7 @@ func matrixCells() []cell {
 		cells = append(cells, cell{"key without scale", "flag", "info key describe", []string{"--key", k}, "", "", "--key " + k})
 		cells = append(cells, cell{"key without scale", "flag", "info key conv", []string{"--key", k}, "", "", "--key " + k})
 	}
-	for _, k := range []string{"Cmaj7", "H", "xyzzy Dbb"} {
+	for _, k := range []string{"Cmaj7", "H", "xyzzy Dbb", "Dbb", "C#b"} {
 		cells = append(cells, cell{"malformed key", "flag", "text conv syllable", []string{"--key", k}, "C[1]", "", "--key " + k})
 		cells = append(cells, cell{"malformed key", "flag", "info key describe", []string{"--key", k}, "", "", "--key " + k})
 		cells = append(cells, cell{"malformed key", "flag", "info key conv", []string{"--key", k}, "", "", "--key " + k})
@@ -216,7 +216,9 @@ func init() {
 			}
 			// dictionary files: missing names, wrong types, binary junk
 			dicts := []string{"- name: A\n", "- {name: A, meta: {display: a}}\n", "name: A\n", "- 1\n- 2\n", "\xff\xfe\x00", "- name: A\n  meta: {display: a}\n  attributes: 7\n", "[]", "",
-				"- name: A\n  meta: {display: a}\n  extends: A\n", "- {name: A, meta: {display: a}, attributes: [Nope]}\n", "- {name: \"\", degree: \"3\"}\n", "- {name: X, degree: \"zz\"}\n", "- {name: X}\n"}
+				"- name: A\n  meta: {display: a}\n  extends: A\n",
+				"- {name: T, meta: {display: t}, extends: A}\n- {name: A, meta: {display: a}, extends: B}\n- {name: B, meta: {display: b}, extends: A}\n",
+				"- {name: T, meta: {display: t}, extends: U}\n- {name: U, meta: {display: u}, extends: V}\n- {name: V, meta: {display: v}, extends: V}\n", "- {name: A, meta: {display: a}, attributes: [Nope]}\n", "- {name: \"\", degree: \"3\"}\n", "- {name: X, degree: \"zz\"}\n", "- {name: X}\n"}
 			for i, d := range dicts {
 				for _, fl := range []string{"--chord", "--attr"} {
 					for _, cmd := range [][]string{{"write"}, {"info", "chord", "list"}, {"info", "attr", "list"}, {"info", "attr", "describe", "-t", "Major3"}, {"info", "chord", "describe", "-t", "Cm"}} {
